@@ -1518,7 +1518,12 @@ umod_2exp_signed_int(Type& to, const Type x, unsigned int exp,
     to = x;
   }
   else {
-    to = x & ((Type(1) << exp) - 1);
+    const Type v = x & ((Type(1) << exp) - 1);
+    if (CHECK_P(To_Policy::check_overflow,
+                PPL_GT_SILENT(v, (Extended_Int<To_Policy, Type>::max)))) {
+      return set_pos_overflow_int<To_Policy>(to, dir);
+    }
+    to = v;
   }
   return V_EQ;
 }
